@@ -7,16 +7,17 @@ from . import c10
 from . import c15
 
 EXPLANATION = (
-    "Decides: (R1) events cannot outlive their bytes — compile-fail witnesses: a program that still uses a &Event "
-    "after dropping the Events iterator, or across the next poll_next, must be rejected by the borrow checker (known "
-    "finding K3: today it compiles); (R2) decoder bounds in Events::poll_sys: the record header is dereferenced only "
-    "under `buf.len() > processed`, BUF_SIZE = size_of::<inotify_event>() + NAME_MAX + 1 so a read never splits a "
-    "record, and the read buffer is created with that capacity; (R3) filtered records: on the IN_IGNORED edge the "
-    "watch is forgotten (watching.remove(wd)) and on the IN_IGNORED / IN_Q_OVERFLOW edges no event is yielded before "
-    "the loop header; (R4) the cursor `processed` only increases, by header + name length, exactly once per record "
-    "and before the record can be yielded or skipped; padding NULs are stripped by a last-non-NUL search before the "
-    "reference is formed, and the reference covers header + trimmed name. Exact decoding for all record sequences "
-    "and batchings is not decided."
+    'Decides: (R1) events cannot outlive their bytes — compile-fail witnesses: a program that still uses a '
+    '&Event after dropping the Events iterator, or across the next poll_next, must be rejected by the borrow '
+    'checker (known finding K3: today it compiles); (R2) decoder bounds in Events::poll_sys: the record header '
+    'is dereferenced only under `buf.len() > processed`, BUF_SIZE = size_of::<inotify_event>() + NAME_MAX + 1 '
+    'so a read never splits a record, and the read buffer is created with that capacity; (R3) filtered '
+    'records: on the IN_IGNORED edge the watch is forgotten (watching.remove(wd)) and on the IN_IGNORED / '
+    'IN_Q_OVERFLOW edges no event is yielded before the loop header; (R4) the cursor `processed` only '
+    'increases, by header + name length, exactly once per record and before the record can be yielded or '
+    'skipped; padding NULs are stripped by a last-non-NUL search over the whole event.len name field before '
+    'the reference is formed, and the reference covers header + trimmed name. Exact decoding for all record '
+    'sequences and batchings is not decided.'
 )
 NOT_DECIDED = "exact decoding for all record sequences and batchings"
 ASSUMPTIONS = ["the kernel writes whole inotify_event records (inotify(7))"]
